@@ -116,7 +116,7 @@ def build():
          requires=[("switch is configured", "obj.hw_switch is not None"),
                    ("switch state is 0/1", "obj.state == 0 or obj.state == 1"),
                    ("invert is 0/1", "obj.invert == 0 or obj.invert == 1")],
-         loops={0: LoopSpec(invariant=[])},
+         loops={0: LoopSpec(invariant=[])}, loops_by_text={"self.monitors": LoopSpec(invariant=[])},
          ensures=[
              ("logical state = reported state (NC switches inverted for raw reports)",
               "obj.state == %s" % NEW),
@@ -382,6 +382,105 @@ def build():
     C.bounded = ["SwitchController.remove_switch_handler_obj: 2 registered handlers per state and two deadlines with "
                  "%d timed entries each; all entry fields symbolic (list lengths are the bound)" % N]
 
+    # ------------------------------------------------------------------ Part C (bounded): the timer of pending hold-times
+    NT = common.bound(3, 4)
+    C.cls("Loop", fields={})
+
+    def call_at(I, env, a, k):
+        I.ctx.fresh_n += 1
+        h = VOpaque("TimerHandle", z3.Const("timer!%d" % I.ctx.fresh_n, usort("TimerHandle")))
+        emit(I, "call_at", when=a[0], callback=a[1], handle=h)
+        return h
+    C.ext("Loop.call_at", model=call_at, trusted_reason="asyncio loop (A-ASYNCIO): fires once, not before its time")
+    C.ext("ClockBase.unschedule", model=lambda I, env, a, k: (emit(I, "unschedule", handle=a[0]), NONE)[1],
+          trusted_reason="cancels a timer handle")
+    C.classes["ClockBase"].fields["loop"] = ObjS("Loop")
+    C.cls("EventMgr", fields={})
+    C.ext("EventMgr.process_event_queue", model=lambda I, env, a, k: (emit(I, "drain"), NONE)[1],
+          trusted_reason="event queue drain (C01)")
+    C.globals["partial"] = VFn("builtin", name="partial")
+
+    def deadlines(I, name):
+        """pending hold-time deadlines of the switch: 1..NT distinct times IN ANY ORDER, one handler each"""
+        sw = I.force(I.frames[0].env["switch"]).ref
+        n = 1 + I.ctx.fork(NT)
+        ents = []
+        for j in range(n):
+            t = VReal(z3.Real("%s.deadline%d" % (name, j)))
+            ents.append((t, I.new_list([VTuple([VOpaque("Fn", z3.Const("%s.cb%d" % (name, j), usort("Fn"))),
+                                                I.fresh(Int, "%s.state%d" % (name, j)),
+                                                I.fresh(Real, "%s.ms%d" % (name, j))], ntname="TimedSwitchHandler",
+                                               fields=("callback", "state", "ms"))], "%s[t%d]" % (name, j))))
+        for i_ in range(n):
+            I.ctx.assume(ents[i_][0].t > 0)         # loop-clock times are positive
+            for j_ in range(i_ + 1, n):
+                I.ctx.assume(ents[i_][0].t != ents[j_][0].t)
+        inner = I.new_dict(ents, name + "[sw]")
+        return I.new_dict([(VObj(sw), inner)], name)
+
+    def delay_entry(I, name):
+        sw = I.force(I.frames[0].env["switch"]).ref
+        return I.new_dict([(VObj(sw), VTuple([VOpaque("TimerHandle", z3.Const("old_timer", usort("TimerHandle"))),
+                                             VReal(z3.Real("old_timer_time"))]))], name)
+    TSELF = ObjS("SwitchController", _active_timed_switches=Init(deadlines), _timed_switch_handler_delay=Init(delay_entry),
+                 _debug_to_console=Bool, _debug_to_file=Bool,
+                 machine=ObjS("MachineController", clock=ObjS("ClockBase", now=Real, loop=ObjS("Loop")),
+                              events=ObjS("EventMgr")))
+
+    def due_called_rest_kept(I):
+        """every handler whose deadline has passed is called exactly once (and its deadline removed); every other
+        deadline is kept with its handlers"""
+        this = I.frames[0].env["self"].ref
+        sw = I.force(I.frames[0].env["switch"]).ref
+        now = I.force(I.read_field(I.force(I.read_field(I.force(I.read_field(this, "machine")).ref, "clock")).ref, "now")).t
+        old_outer = I.old_heap.data[(I.force(I.read_field(this, "_active_timed_switches", heap=I.old_heap)).ref, "$")]
+        old_inner = I.old_heap.data[(I.force(old_outer.get(VObj(sw))).ref, "$")].entries
+        new_outer = I.container(I.force(I.read_field(this, "_active_timed_switches")).ref)
+        new_inner = I.container(I.force(new_outer.get(VObj(sw))).ref)
+        calls = [e for e in I.cur_trace() if e.name == "callback"]
+        conj = []
+        for t, lst in old_inner:
+            cb = I.force(I.old_heap.data[(I.force(lst).ref, "$")].items[0]).items[0]
+            n_calls = len([e for e in calls if I.force(e.args["fn"]).t.eq(I.force(cb).t)])
+            kept = new_inner.get(t) is not None
+            due = t.t <= now
+            conj.append(z3.If(due, z3.BoolVal(n_calls == 1 and not kept), z3.BoolVal(n_calls == 0 and kept)))
+        return VBool(z3.And(*conj))
+    C.helpers["due_called_rest_kept"] = due_called_rest_kept
+
+    def rearmed_at_earliest(I):
+        """exactly one timer is set iff a deadline remains, for the EARLIEST remaining deadline, and remembered"""
+        this = I.frames[0].env["self"].ref
+        sw = I.force(I.frames[0].env["switch"]).ref
+        new_outer = I.container(I.force(I.read_field(this, "_active_timed_switches")).ref)
+        rest = [t for t, _ in I.container(I.force(new_outer.get(VObj(sw))).ref).entries]
+        evs = [e for e in I.cur_trace() if e.name == "call_at"]
+        dl = I.container(I.force(I.read_field(this, "_timed_switch_handler_delay")).ref).get(VObj(sw))
+        if not rest:
+            return VBool(len(evs) == 0 and dl is None)
+        if len(evs) != 1 or dl is None:
+            return VBool(False)
+        when = I.force(evs[0].args["when"])
+        cb = I.force(evs[0].args["callback"])
+        ok = cb.tag == "fn" and cb.kind == "partial" and I.force(cb.fn).name == "_process_active_timed_switches"
+        rem = I.force(dl)
+        return VBool(z3.And(z3.BoolVal(ok), *[when.t <= t.t for t in rest],
+                            z3.Or(*[when.t == t.t for t in rest]), I.eq(rem.items[1], when),
+                            I.eq(rem.items[0], evs[0].args["handle"])))
+    C.helpers["rearmed_at_earliest"] = rearmed_at_earliest
+    C.helpers["n_drains"] = lambda I: VInt(len([e for e in I.cur_trace() if e.name == "drain"]))
+    C.trace_helpers |= {"due_called_rest_kept", "rearmed_at_earliest", "n_drains"}
+    C.helpers["on_opaque_call"] = C.helpers.get("on_opaque_call") or (lambda I, fn, a, k: NONE)
+    C.fn("SwitchController._process_active_timed_switches", params=dict(self=TSELF, switch=SWITCH),
+         loops={0: LoopSpec(invariant=[], unroll=True), 1: LoopSpec(invariant=[], unroll=True)},
+         ensures=[("H1: when the timer fires every hold-time handler whose deadline has passed takes effect exactly "
+                   "once and is forgotten; the others stay pending", "due_called_rest_kept()"),
+                  ("H2: the timer is set again for the EARLIEST remaining deadline (whatever order the deadlines were "
+                   "registered in), so no handler fires late; none if nothing remains", "rearmed_at_earliest()"),
+                  ("the event queue is drained once, after the handlers", "n_drains() == 1")],
+         modifies=["self._active_timed_switches.**", "self._timed_switch_handler_delay",
+                   "self._timed_switch_handler_delay.**"], raises={},
+         bounded="BOUNDED: 1..%d pending deadlines (distinct, in any order), one handler each" % NT)
     C.assume("A-ASYNCIO: clock.get_time() is the loop time; call_at fires once, not before its time")
     C.assume("A-FLOAT: times as reals")
     C.assume("switch objects have state/invert in {0,1} (set by the switch device and platform)")
